@@ -168,17 +168,25 @@ Lemma sr_delay_other_off k d v s t :
   v <> RELAY_OFF ->
   (v = RELAY_UP -> down_on (fst (sr_delay k d v s t)) = false) /\ (v <> RELAY_UP -> up_on (fst (sr_delay k d v s t)) = false).
 Proof.
-  intros Hv. unfold sr_delay. replace (v =? RELAY_OFF) with false by (symmetry; apply Z.eqb_neq; exact Hv).
-  cbv zeta. cbn [fst]. fld.
+  intros Hv.
+  assert (E0 : fst (sr_delay k d v s t) =
+               if (if negb (v =? RELAY_UP) then up_on (fl_clear (fl_clear (fl_clear (upd_misc d v (now d) (clk d)) FLAG_CALIBRATION_FAILED) FLAG_MOTOR_PROBLEM) FLAG_CALIBRATION_LOST) else down_on (fl_clear (fl_clear (fl_clear (upd_misc d v (now d) (clk d)) FLAG_CALIBRATION_FAILED) FLAG_MOTOR_PROBLEM) FLAG_CALIBRATION_LOST))
+               then upd_misc (relay_hi k (fl_clear (fl_clear (fl_clear (upd_misc d v (now d) (clk d)) FLAG_CALIBRATION_FAILED) FLAG_MOTOR_PROBLEM) FLAG_CALIBRATION_LOST) (negb (v =? RELAY_UP)) false)
+                      (last_direction (relay_hi k (fl_clear (fl_clear (fl_clear (upd_misc d v (now d) (clk d)) FLAG_CALIBRATION_FAILED) FLAG_MOTOR_PROBLEM) FLAG_CALIBRATION_LOST) (negb (v =? RELAY_UP)) false))
+                      (now (relay_hi k (fl_clear (fl_clear (fl_clear (upd_misc d v (now d) (clk d)) FLAG_CALIBRATION_FAILED) FLAG_MOTOR_PROBLEM) FLAG_CALIBRATION_LOST) (negb (v =? RELAY_UP)) false))
+                      (clk (relay_hi k (fl_clear (fl_clear (fl_clear (upd_misc d v (now d) (clk d)) FLAG_CALIBRATION_FAILED) FLAG_MOTOR_PROBLEM) FLAG_CALIBRATION_LOST) (negb (v =? RELAY_UP)) false) + REVERSE_PAUSE_US)
+               else fl_clear (fl_clear (fl_clear (upd_misc d v (now d) (clk d)) FLAG_CALIBRATION_FAILED) FLAG_MOTOR_PROBLEM) FLAG_CALIBRATION_LOST).
+  { unfold sr_delay. replace (v =? RELAY_OFF) with false by (symmetry; apply Z.eqb_neq; exact Hv).
+    reflexivity. }
+  rewrite E0. clear E0.
+  set (X := fl_clear (fl_clear (fl_clear (upd_misc d v (now d) (clk d)) FLAG_CALIBRATION_FAILED) FLAG_MOTOR_PROBLEM) FLAG_CALIBRATION_LOST).
   destruct (v =? RELAY_UP) eqn:E; cbn [negb].
   - apply Z.eqb_eq in E. split; [intros _|congruence].
-    destruct (down_on d) eqn:D; fld; [|exact D].
-    match goal with |- context[relay_hi k ?x ?u ?h] => destruct (relay_hi_pins k x u h) as [_ H] end.
-    exact H.
+    destruct (down_on X) eqn:D; [|exact D].
+    destruct (relay_hi_pins k X false false) as [_ H]. exact H.
   - apply Z.eqb_neq in E. split; [congruence|intros _].
-    destruct (up_on d) eqn:D; fld; [|exact D].
-    match goal with |- context[relay_hi k ?x ?u ?h] => destruct (relay_hi_pins k x u h) as [H _] end.
-    exact H.
+    destruct (up_on X) eqn:D; [|exact D].
+    destruct (relay_hi_pins k X true false) as [H _]. exact H.
 Qed.
 
 Lemma sub_sr_act up k d v dl :
